@@ -380,8 +380,17 @@ func oracleLines(db *database.Database, q string) []string {
 		"pq " + hxList(pq.Actions) + " " + hxList(pq.Targets) + " " + hxList(pq.Keywords) + " " + hxList(pq.GetEnhancedKeywords())}
 	ib, cb := make([]string, len(db.Commands)), make([]string, len(db.Commands))
 	for i := range db.Commands {
-		ib[i] = F(database.VerifIntentBoost(&db.Commands[i], pq))
-		cb[i] = F(db.VerifCascadeBoost(&db.Commands[i], pq))
+		// the oracle values come from the real code: a panic in it must not take the generator down (the search op of the
+		// case then panics on the same input in the executor, where it is recorded with the request that caused it)
+		func() {
+			defer func() {
+				if recover() != nil {
+					ib[i], cb[i] = F(1), F(1)
+				}
+			}()
+			ib[i] = F(database.VerifIntentBoost(&db.Commands[i], pq))
+			cb[i] = F(db.VerifCascadeBoost(&db.Commands[i], pq))
+		}()
 	}
 	if len(ib) == 0 {
 		lines = append(lines, "ib -", "cb -")
